@@ -276,7 +276,15 @@ pub fn main(a: &Args) {
     let mut i = 0;
     while i < n && rep.elapsed() < a.max_s {
         i += 1;
-        let g = gen_ast(&mut rng);
+        let mut g = gen_ast(&mut rng);
+        if rng.chance(0.3) {
+            // lower-case names: the type and the action function of a terminal then share one identifier
+            for t in g.terms.iter_mut() {
+                if t.lit.is_none() {
+                    t.name = t.name.to_lowercase();
+                }
+            }
+        }
         let text = g.text();
         // a changed grammar: one more alternative / rule
         let g2 = {
